@@ -1,4 +1,4 @@
-import Wal.Lemmas.Global
+import Wal.Lemmas.Mono
 /-!
 # C06 — Core evaluator: lexical scoping, closures, left-to-right single evaluation
 
@@ -152,6 +152,18 @@ definition environment alive) -/
 theorem eval_frames_grow (n : Nat) (st st' : St) (e v : Sx) (hok : Glob.Ok st)
     (h : eval n st e = .ok (v, st')) : st.frames.size ≤ st'.frames.size :=
   (Glob.eval_P n st e v st' h hok).2.2
+
+/-! ## the fuel of the model is not observable -/
+
+/-- **a completed evaluation is unchanged by more fuel** (`Mono.eval_mono_le`: every operator is monotone in the
+evaluator of its sub-terms and in its loop bounds) -/
+theorem more_fuel_same_result (n m : Nat) (hnm : n ≤ m) (st : St) (e : Sx) (r : Sx × St)
+    (h : eval n st e = .ok r) : eval m st e = .ok r := Mono.eval_mono_le n m hnm st e r h
+
+/-- **evaluation is a function of the state and the expression**: two completed runs, whatever fuel each was given,
+return the same value and the same state (result, output, variables, trace positions) -/
+theorem evaluation_deterministic (st : St) (e : Sx) (r r' : Sx × St)
+    (h : Mono.Evals st e r) (h' : Mono.Evals st e r') : r = r' := Mono.Evals_det st e r r' h h'
 
 /-! ## define / set -/
 
